@@ -251,14 +251,36 @@ def boundGroup (P : Problem) (vehicle kind : String) (shift : Nat) : Nat → Nat
     | some jd => jd :: boundGroup P vehicle kind shift fuel (n+1)
     | none => []
 
-def matchBound (c : Ctx) : List JobDef → Option (JobDef × Nat)
-  | [] => none
+/-- start of the matched place's time: the first span that intersects (`find`); an offset span gives
+    `[time.end - duration, time.end]` -/
+def matchedStart (pl : Place) (c : Ctx) : Int :=
+  match pl.spans.find? (fun sp => intersects (sp.window c.routeStart) c.time) with
+  | some sp => if sp.offset then c.time.2 - pl.dur else sp.s
+  | none => 0
+
+/-- all vehicle-bound jobs of the group that have a matching place: (job, place index, place) -/
+def boundCandidates (c : Ctx) : List JobDef → List (JobDef × Nat × Place)
+  | [] => []
   | jd :: rest =>
     match jd.singles with
     | [s] => (match matchPlace s (c.jobId == jd.id) false c with
-        | some p => some (jd, p)
-        | none => matchBound c rest)
-    | _ => matchBound c rest
+        | some p => (match s.places[p]? with
+            | some pl => (jd, p, pl) :: boundCandidates c rest
+            | none => boundCandidates c rest)
+        | none => boundCandidates c rest)
+    | _ => boundCandidates c rest
+
+/-- "prefer the one which has the same duration": `time.end == max(time.start, place.time.start) + duration` -/
+def durationConsistent (c : Ctx) (x : JobDef × Nat × Place) : Bool :=
+  c.time.2 == max c.time.1 (matchedStart x.2.2 c) + x.2.2.dur
+
+def matchBound (c : Ctx) (group : List JobDef) : Option (JobDef × Nat) :=
+  let cands := boundCandidates c group
+  match cands.find? (durationConsistent c) with
+  | some x => some (x.1, x.2.1)
+  | none => match cands with
+    | x :: _ => some (x.1, x.2.1)
+    | [] => none
 
 /-- `try_match_point_job`: `ok none` for departure / arrival -/
 def matchAct (P : Problem) (vehicle : String) (shift : Nat) (c : Ctx) : Except RErr (Option (JobDef × RAct)) :=
